@@ -77,6 +77,10 @@ type Case struct {
 	SiteSeed  uint64   `json:"site_seed,omitempty"`
 	Budget    uint32   `json:"budget,omitempty"`
 	Race      bool     `json:"race,omitempty"` // free-running goroutines instead of the scheduler (race tier)
+	// Cold: the concurrent run comes first and the solo references are
+	// computed afterwards, so that, when this is the first case of a process,
+	// the clients meet every lazily initialised package-level state cold
+	Cold bool `json:"cold,omitempty"`
 }
 
 type Job struct {
@@ -90,6 +94,10 @@ type Job struct {
 	KeepLog  bool   `json:"keep_log"`
 	MaxViol  int    `json:"max_viol"`
 	RefSigs  bool   `json:"ref_sigs"` // return the per-case digests of the reference observations
+	// RefOnly: compute only the reference observations (unwoven validation
+	// build, which has no step budget); cases listed in Skip are not run at all
+	RefOnly bool  `json:"ref_only"`
+	Skip    []int `json:"skip,omitempty"`
 }
 
 type Outcome struct {
@@ -452,22 +460,28 @@ func runC14(t *testing.T, c Case, keepLog bool) (out Outcome) {
 			return
 		}
 	}
-	// each client alone
 	solo := make([][]Obs, len(c.Clients))
-	for i, p := range c.Clients {
-		_, over := counted(absBudget*uint64(len(p.Steps)), func() { solo[i] = runProg(p) })
-		if over {
-			out.Skipped = "solo run exceeds the step budget"
-			return
+	computeSolo := func() bool {
+		// each client alone
+		for i, p := range c.Clients {
+			_, over := counted(absBudget*uint64(len(p.Steps)), func() { solo[i] = runProg(p) })
+			if over {
+				out.Skipped = "solo run exceeds the step budget"
+				return false
+			}
 		}
-	}
-	rh := simrt.NewHash()
-	for i := range solo {
-		for _, o := range solo[i] {
-			rh = rh.AddString(o.String())
+		rh := simrt.NewHash()
+		for i := range solo {
+			for _, o := range solo[i] {
+				rh = rh.AddString(o.String())
+			}
 		}
+		out.RefSig = uint64(rh)
+		return true
 	}
-	out.RefSig = uint64(rh)
+	if !c.Cold && !computeSolo() {
+		return
+	}
 	together := make([][]Obs, len(c.Clients))
 	var res simrt.Result
 	if c.Race {
@@ -527,6 +541,9 @@ func runC14(t *testing.T, c Case, keepLog bool) (out Outcome) {
 			}
 		}
 	}
+	if c.Cold && !computeSolo() {
+		return
+	}
 	for i := range c.Clients {
 		for k := range solo[i] {
 			var g Obs
@@ -544,6 +561,45 @@ func runC14(t *testing.T, c Case, keepLog bool) (out Outcome) {
 		}
 	}
 	return
+}
+
+// refOnly computes the digest of the reference observations of a case, the
+// same way the full run does.
+func refOnly(c Case) uint64 {
+	switch c.Mode {
+	case "c06":
+		g := simrt.LookupGrammar(c.Grammar)
+		if g == nil {
+			return 0
+		}
+		st := Step{Input: c.Input, Entry: c.Entry, Exec: true, AST: true, Tree: true}
+		refCfg := c.Cfg
+		refCfg.NoMemo = true
+		ref := doStep(g.New(refCfg, c.Input), st)
+		return uint64(simrt.NewHash().AddString(ref.String()))
+	case "c12":
+		p := *c.Prog
+		if simrt.LookupGrammar(p.Grammar) == nil {
+			return 0
+		}
+		rh := simrt.NewHash()
+		for k := range p.Steps {
+			rh = rh.AddString(runFresh(p, k).String())
+		}
+		return uint64(rh)
+	case "c14":
+		rh := simrt.NewHash()
+		for _, p := range c.Clients {
+			if simrt.LookupGrammar(p.Grammar) == nil {
+				return 0
+			}
+			for _, o := range runProg(p) {
+				rh = rh.AddString(o.String())
+			}
+		}
+		return uint64(rh)
+	}
+	return 0
 }
 
 // ---------- case generation (a pure function of seed and run index) ----------
@@ -568,11 +624,9 @@ func pickInput(r *simrt.SplitMix64, g *GrammarInfo) string {
 
 func pickCfg(r *simrt.SplitMix64, g *GrammarInfo) simrt.InstCfg {
 	cfg := simrt.InstCfg{}
-	if !g.Heavy {
-		cfg.U = r.Intn(4)
-	} else {
-		cfg.U = []int{0, 2, 3}[r.Intn(3)]
-	}
+	// every instantiation the property names; the shipped grammars' real
+	// inputs (a few thousand runes, far fewer tokens than 65 535) fit uint16 too
+	cfg.U = r.Intn(4)
 	cfg.Size = []int{0, 0, 1, 7, 1 << 15}[r.Intn(5)]
 	cfg.Pretty = r.Chance(1, 4)
 	cfg.ShareOpts = r.Chance(1, 2)
@@ -660,10 +714,10 @@ func genC12(seed uint64, i int) Case {
 	return Case{Mode: "c12", Run: i, Prog: &p}
 }
 
-func genC14(seed uint64, i int, race bool) Case {
+func genC14(seed uint64, i int, race bool, cold bool) Case {
 	r := simrt.NewRNG(simrt.DeriveN(seed, "c14", i))
 	k := 2 + r.Intn(3)
-	c := Case{Mode: "c14", Run: i, Race: race}
+	c := Case{Mode: "c14", Run: i, Race: race, Cold: cold}
 	first := pickGrammar(r)
 	for j := 0; j < k; j++ {
 		g := first
@@ -693,10 +747,24 @@ func genC14(seed uint64, i int, race bool) Case {
 				}
 			}
 		}
+		if cold {
+			p.Cfg.NoMemo = false
+			for k := range p.Steps {
+				for tries := 0; len(p.Steps[k].Input) > 64 && tries < 20; tries++ {
+					p.Steps[k].Input = pickInput(r, byName[p.Grammar])
+				}
+				if len(p.Steps[k].Input) > 64 {
+					p.Steps[k].Input = ""
+				}
+			}
+		}
 		c.Clients = append(c.Clients, p)
 	}
 	style := r.Intn(simrt.FillStyles)
-	param := []int{1, 2, 4, 12}[r.Intn(4)]
+	param := []int{1, 2, 4, 12, 60, 400}[r.Intn(6)]
+	if style == simrt.FillFew {
+		param = []int{1, 2, 3, 5, 8}[r.Intn(5)]
+	}
 	n := 6000
 	c.SchedTape = simrt.FillTape(r, n, style, param)
 	c.ActiveNum, c.ActiveDen = []int{1, 1, 3, 1}[r.Intn(4)], []int{1, 2, 4, 8}[r.Intn(4)]
@@ -765,8 +833,21 @@ func TestSim(t *testing.T) {
 	res := JobResult{Skipped: map[string]int{}, Stats: map[string]int{}, GoidFast: !job.Race && simrt.GoidIsFast(), NSites: simrt.NSites}
 	sigs := map[uint64]bool{}
 	adj := map[uint64]bool{}
+	skip := map[int]bool{}
+	for _, k := range job.Skip {
+		skip[k] = true
+	}
 	handle := func(c Case) Outcome {
 		var o Outcome
+		if job.RefOnly {
+			res.Runs++
+			if skip[c.Run] {
+				res.RefSigs = append(res.RefSigs, 0)
+			} else {
+				res.RefSigs = append(res.RefSigs, refOnly(c))
+			}
+			return o
+		}
 		switch c.Mode {
 		case "c06":
 			o = runC06(c)
@@ -779,6 +860,9 @@ func TestSim(t *testing.T) {
 		}
 		res.Runs++
 		if job.RefSigs {
+			if o.Skipped != "" {
+				o.RefSig = 0
+			}
 			res.RefSigs = append(res.RefSigs, o.RefSig)
 		}
 		if o.Skipped != "" {
@@ -817,7 +901,7 @@ func TestSim(t *testing.T) {
 			case "c12":
 				c = genC12(job.Seed, i)
 			case "c14":
-				c = genC14(job.Seed, i, job.Race)
+				c = genC14(job.Seed, i, job.Race, i == job.From)
 			}
 			o := handle(c)
 			if len(res.Samples) < 2 && o.Nontrivial && o.Skipped == "" {
